@@ -18,8 +18,9 @@ import (
 // RemoteLogSender over real gRPC on loopback) forwards a run of its local raft log to a receiver that filters
 // like server.ApplyRaftReqs / KVNode.applyEntry do. Whatever the batching, the receiver must end up having applied
 // exactly the entries beyond its synced position, each once, and the learner must not claim more than that.
-//   send <recvTerm> <recvIndex> <from> <to> <termchange-at|0>
-//     → applied=[…] recv=<t>,<i> claimed=<t>,<i>
+//
+//	send <recvTerm> <recvIndex> <from> <to> <termchange-at|0>
+//	  → applied=[…] recv=<t>,<i> claimed=<t>,<i>
 func init() { register(&Proto{Name: "syncsend", Gen: genSyncSend, New: newSyncSend}) }
 
 func genSyncSend(rng *rand.Rand, tier string, emit func(string)) {
